@@ -61,6 +61,46 @@ def _form():
     return _FORM
 
 
+_FORMS = None
+SCALES = (3.0, 1.0, 2.0, 5.0)
+
+
+def _forms():
+    """Several distinct forms (k * mass).  A request for several objects must get them back in
+    request order whichever branch (build / cache hit / wait) serves it; the order of the list is
+    chosen so that the generated object names are not alphabetically sorted."""
+    global _FORMS
+    if _FORMS is None:
+        import itertools
+
+        import basix.ufl
+        import ufl
+
+        el = basix.ufl.element("Lagrange", "triangle", 1)
+        dom = ufl.Mesh(basix.ufl.element("Lagrange", "triangle", 1, shape=(2,)))
+        V = ufl.FunctionSpace(dom, el)
+        u, v = ufl.TrialFunction(V), ufl.TestFunction(V)
+        base = [(k, k * u * v * ufl.dx) for k in SCALES]
+        _FORMS = base
+        for perm in itertools.permutations(base):
+            _FORMS = list(perm)
+            r = run_once([], T=1, entry="forms")
+            names = r[-1] if r[0] == "need" else None
+            if names and names != sorted(names) and names != sorted(names, reverse=True):
+                break
+    return _FORMS
+
+
+def _request(entry):
+    """(objects to request, expected tag per object)."""
+    import numpy as np
+
+    fs = _FORMS if _FORMS is not None else _forms()
+    if entry == "forms":
+        return [f for _, f in fs]
+    return [(f.integrals()[0].integrand(), np.array([[0.25, 0.25]])) for _, f in fs]
+
+
 def run_once(script, T=2, entry="forms", extended=False):
     """One execution of the real compile_forms under a scripted environment."""
     import ffcx.codegeneration.jit as jit
@@ -133,9 +173,33 @@ def run_once(script, T=2, entry="forms", extended=False):
                 raise RuntimeError("C compiler failed")
             env.choose(("so_complete",), ["ok"])
 
+    req_names = []
+
     class Lib:
+        """The compiled module's lib: exports exactly the requested objects (plus cffi's own
+        attributes); dir() is alphabetical as for any Python object."""
+
         def __getattr__(self, n):
-            return "obj:" + n
+            if n in req_names:
+                return "obj:" + n
+            raise AttributeError(n)
+
+        def __dir__(self):
+            return sorted(req_names + ["__class__", "__doc__"])
+
+    import ffcx.naming as _naming
+
+    saved_names = {k: getattr(_naming, k) for k in ("form_name", "expression_name")}
+
+    def _rec(fn):
+        def w(*a, **k):
+            n = fn(*a, **k)
+            req_names.append(n)
+            return n
+        return w
+
+    _naming.form_name = _rec(saved_names["form_name"])
+    _naming.expression_name = _rec(saved_names["expression_name"])
 
     class FakeFinder:
         def __init__(self, *a):
@@ -187,15 +251,17 @@ def run_once(script, T=2, entry="forms", extended=False):
     try:
         try:
             if entry == "forms":
-                out = jit.compile_forms([_form()], cache_dir="/nonexistent/verif-jit-model", timeout=T)
+                out = jit.compile_forms(_request("forms"), cache_dir="/nonexistent/verif-jit-model", timeout=T)
             else:
-                import numpy as np
-
-                f = _form()
-                out = jit.compile_expressions([(f.integrals()[0].integrand(), np.array([[0.25, 0.25]]))], cache_dir="/nonexistent/verif-jit-model", timeout=T)
-            res = ("return", "objects" if out[0] is not None else "none")
+                out = jit.compile_expressions(_request("expr"), cache_dir="/nonexistent/verif-jit-model", timeout=T)
+            if out[0] is None:
+                res = ("return", "none")
+            elif list(out[0]) == ["obj:" + n for n in req_names]:
+                res = ("return", "objects")
+            else:
+                res = ("return", "wrong-objects")
         except NeedChoice as n:
-            return ("need", n.n, list(env.events))
+            return ("need", n.n, list(env.events), list(req_names))
         except BaseException as e:
             res = ("raise", type(e).__name__)
     finally:
@@ -204,6 +270,8 @@ def run_once(script, T=2, entry="forms", extended=False):
         if not had_open and "open" in jit.__dict__:
             del jit.open
         ffcx.compiler.compile_ufl_objects = saved_cg
+        for k, v in saved_names.items():
+            setattr(_naming, k, v)
         restored = {"handlers": list(root.handlers) == h0, "stdout": sys.stdout is so}
         root.handlers[:] = h0
         sys.stdout = so
@@ -493,9 +561,30 @@ def replay_trace(trace, N, T, entry="forms"):
             step(("so_complete",))
             state["so"] = 2
 
+    req = {}
+
     class Lib:
         def __getattr__(self, n):
-            return "obj:" + n
+            if any(n in v for v in req.values()):
+                return "obj:" + n
+            raise AttributeError(n)
+
+        def __dir__(self):
+            return sorted({n for v in req.values() for n in v} | {"__class__", "__doc__"})
+
+    import ffcx.naming as _naming
+
+    saved_names = {k: getattr(_naming, k) for k in ("form_name", "expression_name")}
+
+    def _rec(fn):
+        def w(*a, **k):
+            n = fn(*a, **k)
+            req.setdefault(tl.p, []).append(n)
+            return n
+        return w
+
+    _naming.form_name = _rec(saved_names["form_name"])
+    _naming.expression_name = _rec(saved_names["expression_name"])
 
     class FakeFinder:
         def __init__(self, *a):
@@ -545,8 +634,8 @@ def replay_trace(trace, N, T, entry="forms"):
     def worker(p):
         tl.p = p
         try:
-            out = jit.compile_forms([_form()], cache_dir="/nonexistent/verif-jit-model", timeout=T)
-            results[p] = ("return", out[0] is not None)
+            out = jit.compile_forms(_request("forms"), cache_dir="/nonexistent/verif-jit-model", timeout=T)
+            results[p] = ("return", out[0] is not None and list(out[0]) == ["obj:" + n for n in req.get(p, [])])
         except Killed:
             results[p] = ("killed",)
         except BaseException as e:
@@ -557,7 +646,7 @@ def replay_trace(trace, N, T, entry="forms"):
                 cv.notify_all()
 
     try:
-        _form()
+        _forms()
         ths = [threading.Thread(target=worker, args=(p,), daemon=True) for p in range(N)]
         for th in ths:
             th.start()
@@ -569,6 +658,8 @@ def replay_trace(trace, N, T, entry="forms"):
         if not had_open and "open" in jit.__dict__:
             del jit.open
         ffcx.compiler.compile_ufl_objects = saved_cg
+        for k, v in saved_names.items():
+            setattr(_naming, k, v)
         handlers_restored = list(root.handlers) == h0
         root.handlers[:] = h0
         sys.stdout = so0
